@@ -240,6 +240,10 @@ pub struct Scenario {
     pub srv: Vec<SrvProg>,
     /// server: never call accept (poll_closed only)
     pub srv_no_accept: bool,
+    /// the server application accepts at most this many requests (None = unlimited); env op conn/accept_allow adds n
+    pub srv_accept_budget: Option<usize>,
+    /// log a statistics snapshot after every poll of a connection task (not only at quiescence)
+    pub dense_stats: bool,
     pub peer_cfg: PeerCfg,
     pub peer: Vec<PeerStep>,
     pub env: Vec<EnvStep>,
